@@ -373,6 +373,54 @@ STATS = Stats()
 TIMEOUT_MS = [20000]
 
 
+WITNESS = [None]
+_SKEL = {}
+_SKEL_VARS = {}
+
+
+def skeleton(e):
+    """Linear skeleton of a z3 term: every product / quotient / power of non-numeral terms is replaced by a fresh variable
+    (the same one for the same operands).  The skeleton is implied by... rather: implies nothing new; it is a relaxation, so
+    skeleton-unsat entails unsat of the original."""
+    i = e.get_id()
+    r = _SKEL.get(i)
+    if r is not None:
+        return r[1]
+    if z3.is_const(e) or z3.is_rational_value(e) or z3.is_int_value(e) or not z3.is_app(e):
+        _SKEL[i] = (e, e)
+        return e
+    k = e.decl().kind()
+    ch = [skeleton(c) for c in e.children()]
+    out = None
+    if k == z3.Z3_OP_MUL:
+        nums = [c for c in ch if z3.is_rational_value(c) or z3.is_int_value(c)]
+        rest = [c for c in ch if not (z3.is_rational_value(c) or z3.is_int_value(c))]
+        if len(rest) >= 2:
+            key = ('mul', tuple(sorted(c.get_id() for c in rest)), e.sort().kind())
+            v = _SKEL_VARS.get(key)
+            if v is None:
+                v = z3.Real(f'skm{len(_SKEL_VARS)}') if z3.is_real(e) else z3.Int(f'skm{len(_SKEL_VARS)}')
+                _SKEL_VARS[key] = (v, rest)
+            else:
+                v = v[0]
+            out = v
+            for n in nums:
+                out = n * out
+    elif k in (z3.Z3_OP_DIV, z3.Z3_OP_IDIV, z3.Z3_OP_MOD, z3.Z3_OP_POWER) and not (z3.is_rational_value(ch[1]) or z3.is_int_value(ch[1])):
+        key = (k, (ch[0].get_id(), ch[1].get_id()), e.sort().kind())
+        v = _SKEL_VARS.get(key)
+        if v is None:
+            v = z3.Real(f'skm{len(_SKEL_VARS)}') if z3.is_real(e) else z3.Int(f'skm{len(_SKEL_VARS)}')
+            _SKEL_VARS[key] = (v, ch)
+        else:
+            v = v[0]
+        out = v
+    if out is None:
+        out = e.decl()(*ch) if ch else e
+    _SKEL[i] = (e, out)
+    return out
+
+
 class Ctx:
     def __init__(self, trail=None):
         self.solver = z3.Solver()
@@ -423,6 +471,39 @@ class Ctx:
             STATS.unknown += 1
         return r
 
+    def staged(self, f):
+        """feasibility of f on this path: quick look (2 s), then the linear skeleton, then the full budget"""
+        self.solver.set('timeout', 2000)
+        try:
+            r = self.check(f)
+        finally:
+            self.solver.set('timeout', TIMEOUT_MS[0])
+        if r != 'unknown':
+            return r
+        h = WITNESS[0]
+        if h is not None and h(f):
+            return 'sat'            # a sampled point of the path satisfies f (numerically, true sqrt/exp/cos): feasible
+        if self.skeleton_unsat(f):
+            return 'unsat'
+        return self.check(f)
+
+    def skeleton_unsat(self, *extra):
+        """True if the linear skeleton of assumptions + path condition + extra is unsatisfiable (then so is the original)."""
+        STATS.queries += 1
+        t0 = time.time()
+        s = z3.Solver()
+        s.set('timeout', 8000)
+        for a in self.solver.assertions():
+            s.add(skeleton(a))
+        for a in extra:
+            s.add(skeleton(a))
+        if self.roots_used:
+            for a in self.root_axioms(False):
+                s.add(a)
+        r = str(s.check())
+        STATS.solver_s += time.time() - t0
+        return r == 'unsat'
+
     def root_axioms(self, nonlinear=True):
         ax = []
         for L in sorted(self.roots_used):
@@ -449,7 +530,14 @@ class Ctx:
                 STATS.solver_s += time.time() - t0
                 return 'unsat', None
             self.solver.add(*self.root_axioms(True))
+        self.solver.set('timeout', min(2000, TIMEOUT_MS[0]))
         r = str(self.solver.check())
+        self.solver.set('timeout', TIMEOUT_MS[0])
+        if r == 'unknown':
+            if self.skeleton_unsat(*extra):
+                r = 'unsat'
+            else:
+                r = str(self.solver.check())
         m = self.solver.model() if r == 'sat' else None
         self.solver.pop()
         STATS.solver_s += time.time() - t0
@@ -470,8 +558,8 @@ class Ctx:
             d = self.trail[self.pos][0]
         else:
             STATS.branch_queries += 2
-            rt = self.check(f)
-            rf = self.check(z3.Not(f))
+            rt = self.staged(f)
+            rf = self.staged(z3.Not(f))
             if rt == 'unknown' or rf == 'unknown':
                 self.unknown_branch += 1
             can_t = rt != 'unsat'
@@ -890,15 +978,7 @@ def _known_nonneg(p):
     """Cheap syntactic non-negativity (single monomial of even powers / positive-declared vars)."""
     if not p.t:
         return True
-    if len(p.t) != 1:
-        return False
-    (m, c), = p.t.items()
-    if c < 0:
-        return False
-    for v, e in m:
-        if e % 2 and not (VARS[v].info and VARS[v].info.get('pos')):
-            return False
-    return True
+    return _sos(p)
 
 
 def _numop(op, a, b):
@@ -992,7 +1072,7 @@ def inverse(p):
 INV = {}
 
 
-def sx_sqrt(x):
+def sx_sqrt(x, nonneg_known=False, lemmas=None):
     x = as_num(x)
     c = x.const()
     if c is not None:
@@ -1028,7 +1108,7 @@ def sx_sqrt(x):
             if p.is_const():
                 return SNum(outer, False)
     c0 = CUR[0]
-    if c0 is not None and not _known_nonneg(p):
+    if c0 is not None and not nonneg_known and not _known_nonneg(p):
         # domain: the radicand must be provably non-negative on this path, otherwise the path forks and the negative side
         # is not modelled (numpy would produce NaN there)
         k = ('sqrt-dom', p.key())
@@ -1040,6 +1120,10 @@ def sx_sqrt(x):
     if not v.defs:
         v.deps = tuple(p.vars())
         v.defs = [v.z >= 0, v.z * v.z == lower(p)]
+        if lemmas and outer is None:
+            # linear consequences supplied by the caller (e.g. sqrt(a^2 + b^2) >= |a|, |b|): theorems, they only help the solver
+            v.deps = tuple(set(v.deps) | set(w for l in lemmas for w in l.vars()))
+            v.defs += [v.z >= lower(l) for l in lemmas]
         v.ev = lambda env, p=p: math.sqrt(max(p.evalf(env), 0.0))
         SQRT[v.id] = p
     r = Poly.var(v.id)
@@ -1538,13 +1622,13 @@ class SCx:
             return abs(r)
         if len(self.t) == 1:
             (k, (a, b)), = self.t.items()
-            return sx_sqrt(SNum(a * a + b * b))
+            return sx_sqrt(SNum(a * a + b * b), nonneg_known=True)
         ex = self.exact_parts()
         if ex is not None:
             re, im = ex
             if im.p.is_zero():
                 return abs(re)
-            return sx_sqrt(re * re + im * im)
+            return sx_sqrt(re * re + im * im, nonneg_known=True, lemmas=[re.p, -re.p, im.p, -im.p])      # a sum of two squares
         raise SymxUnsupported('abs of a multi-phase complex value')
 
     def exact_parts(self):
@@ -1699,9 +1783,13 @@ def real_exp(x):
     v = mkvar(('exp', x.p.key()), None, 'R', 'exp', {'pos': True})
     if not v.defs:
         v.deps = tuple(x.p.vars())
-        az = lower(x.p)
-        # exp > 0, exp(a) >= 1 + a (so exp(a) > 1 for a > 0), exp(a) <= 1/(1 - a) for a < 1 (so exp(a) < 1 for a < 0): theorems
-        v.defs = [v.z > 0, v.z >= 1 + az, z3.Implies(az < 1, v.z * (1 - az) <= 1)]
+        # exp > 0; exp(a) > 1 for a syntactically positive argument, < 1 for a negative one (theorems; kept linear on purpose)
+        v.defs = [v.z > 0]
+        sg = _known_sign(x.p)
+        if sg == 1:
+            v.defs.append(v.z > 1)
+        elif sg == -1:
+            v.defs.append(v.z < 1)
         v.ev = lambda env, p=x.p: math.exp(p.evalf(env))
         REXP[v.id] = x.p
     return SNum(Poly.var(v.id), False)
